@@ -23,29 +23,72 @@ fn numeric_base(tag: &str) -> String {
 pub fn generate(mt: &str, src: &mut Src) -> TokCase {
     // well-delimited texts: content lines never start with ':' or '-' (generators guarantee it)
     let mut c = mutate_msg(mt, src);
-    if c.bad_content {
-        // contents made invalid for their field are still well delimited; keep them
-    }
     c.wrapper = true;
-    let nl = if c.crlf { "\r\n" } else { "\n" };
+    let class = c.mutation.clone();
+    build_case(mt, &c.toks, c.crlf, class, 40, src)
+}
+
+/// field counts around the powers of two a position stamp could wrap at
+pub const BULK_SIZES_QUICK: &[usize] = &[
+    130, 255, 256, 257, 300, 511, 512, 513, 700, 1023, 1024, 1025, 2049, 4097,
+];
+pub const BULK_SIZES_THOROUGH: &[usize] = &[8193, 16385, 32769, 65535, 65536];
+
+/// bulk texts: the token lists of several generated messages of the type one after the other, cut
+/// at exactly `n` fields, with a longer history that tends to drain one tag completely
+pub fn generate_bulk(mt: &str, n: usize, src: &mut Src) -> TokCase {
+    let mut toks: Vec<Tok> = Vec::new();
+    let mut crlf = false;
+    while toks.len() < n {
+        let c = mutate_msg(mt, src);
+        crlf = c.crlf;
+        if c.toks.is_empty() {
+            toks.push(Tok {
+                tag: "20".into(),
+                content: "FILL".into(),
+            });
+        }
+        toks.extend(c.toks);
+    }
+    toks.truncate(n);
+    build_case(mt, &toks, crlf, format!("bulk:{n}"), 600, src)
+}
+
+fn build_case(
+    mt: &str,
+    toks: &[Tok],
+    crlf: bool,
+    class: String,
+    max_ops: usize,
+    src: &mut Src,
+) -> TokCase {
+    let nl = if crlf { "\r\n" } else { "\n" };
     let mut text = String::new();
     let lead = src.below(3);
     for _ in 0..lead {
         text.push_str(nl);
     }
-    for t in &c.toks {
+    for t in toks {
         text.push_str(&format!(":{}:{}{}", t.tag, t.content.replace('\n', nl), nl));
     }
     for _ in 0..src.below(2) {
         text.push_str(nl);
     }
     // a history of consumption requests over the tags of the text
-    let tags: Vec<String> = c.toks.iter().map(|t| t.tag.clone()).collect();
+    let tags: Vec<String> = toks.iter().map(|t| t.tag.clone()).collect();
     let mut ops = Vec::new();
-    let n_ops = src.below(40);
+    let n_ops = src.below(max_ops);
+    // bulk histories: one tag (by its base) is asked for again and again
+    let focus = if max_ops > 40 && !tags.is_empty() {
+        Some(tags[src.below(tags.len())].clone())
+    } else {
+        None
+    };
     for _ in 0..n_ops {
         let t = if tags.is_empty() {
             "20".to_string()
+        } else if let (Some(f), true) = (&focus, src.chance(3, 4)) {
+            f.clone()
         } else {
             tags[src.below(tags.len())].clone()
         };
@@ -74,7 +117,7 @@ pub fn generate(mt: &str, src: &mut Src) -> TokCase {
         mt: mt.to_string(),
         text,
         ops,
-        class: c.mutation,
+        class,
     }
 }
 
@@ -128,7 +171,8 @@ pub fn oracle(c: &TokCase, obs: &mut Obs) -> Vec<Violation> {
         q.sort();
         q.dedup();
         if q.len() != flat.len() {
-            out.push(viol("C16|tokenise|position-stamps-collide", format!("{} entries but only {} distinct position stamps (the stamp keeps 16 bits of the field index)", flat.len(), q.len())));
+            let size = if flat.len() > 65536 { "over-65536-fields" } else { "up-to-65536-fields" };
+            out.push(viol(format!("C16|tokenise|position-stamps-collide|{size}"), format!("{} entries but only {} distinct position stamps", flat.len(), q.len())));
             return out;
         }
     }
@@ -290,15 +334,19 @@ pub fn oracle(c: &TokCase, obs: &mut Obs) -> Vec<Violation> {
                                         out.push(viol("C16|tracker|find-returns-consumed-or-foreign", format!("{:?} returned {:?} which is not an unconsumed eligible occurrence {:?}", op, (k, v, p), remaining)));
                                         return out;
                                     }
-                                    // per key: the first unconsumed position of that key
-                                    let first = remaining
+                                    // the exact (letterless) tag is served first (documented in
+                                    // the function); otherwise the earliest unconsumed eligible
+                                    // occurrence in input order, whatever its option letter
+                                    let exact = remaining
                                         .iter()
-                                        .filter(|(rk, _)| rk == k)
+                                        .filter(|(rk, _)| rk == base)
                                         .map(|(_, rp)| *rp)
-                                        .min()
-                                        .unwrap();
+                                        .min();
+                                    let first = exact.unwrap_or_else(|| {
+                                        remaining.iter().map(|(_, rp)| *rp).min().unwrap()
+                                    });
                                     if *p != first {
-                                        out.push(viol("C16|tracker|find-out-of-order", format!("{:?} returned position {} of {} although {} is still unconsumed", op, p, k, first)));
+                                        out.push(viol("C16|tracker|find-out-of-order", format!("{:?} returned position {} of {} although position {} is still unconsumed ({:?})", op, p, k, first, remaining)));
                                         return out;
                                     }
                                     let stored = map
@@ -407,9 +455,9 @@ pub fn oracle(c: &TokCase, obs: &mut Obs) -> Vec<Violation> {
 }
 
 pub fn run(ctx: &Ctx) {
-    ctx.add_rule("per message type: well-delimited block-4 texts (valid and structurally mutated: unknown tags, duplicates, reorderings; LF/CRLF; leading/trailing blank lines) as extract_block returns them, plus a history of up to 40 consumption requests (peek / take by tag, find by base tag with and without option constraints); oracle: reference tokenizer list == map flattened by position (tag or its numeric base, content up to surrounding white space, positions strictly increasing), a per-tag model of the tracker, and partition checks for split_into_sequences / parse_repetitive_sequence; non-trivial = a tag occurs twice, or a history mixing take and find; distinct by text/history");
+    ctx.add_rule("bulk texts (token lists of several generated messages concatenated and cut at 130..4097 fields around every power of two; up to 65 536 in the thorough tier) with histories of up to 600 requests focused on one tag; and per message type: well-delimited block-4 texts (valid and structurally mutated: unknown tags, duplicates, reorderings; LF/CRLF; leading/trailing blank lines) as extract_block returns them, plus a history of up to 40 consumption requests (peek / take by tag, find by base tag with and without option constraints); oracle: reference tokenizer list == map flattened by position (tag or its numeric base, content up to surrounding white space, positions strictly increasing), a per-tag model of the tracker, and partition checks for split_into_sequences / parse_repetitive_sequence; non-trivial = a tag occurs twice, or a history mixing take and find; distinct by text/history");
     ctx.assume("domain: content lines never start with ':' or '-' and nothing precedes the first field (the tokeniser's behaviour there is documented nowhere)");
-    ctx.assume("find-by-base across different option letters: only per-tag order and exactly-once are judged, not the order between different tags");
+    ctx.assume("find-by-base: the letterless tag is served before lettered ones (the function documents it); among lettered tags the earliest unconsumed eligible occurrence in input order is expected");
     let to_json = |c: &TokCase| serde_json::to_value(c).unwrap();
     ctx.run_generated(
         "tokens",
@@ -419,6 +467,26 @@ pub fn run(ctx: &Ctx) {
         &|sh, src: &mut Src| generate(mt_of_shard(sh), src),
         &oracle,
         &to_json,
+    );
+    // bulk texts: field counts around every power of two up to 4096 (65 536 in the thorough tier)
+    let mut sizes: Vec<usize> = BULK_SIZES_QUICK.to_vec();
+    if !ctx.quick() {
+        sizes.extend_from_slice(BULK_SIZES_THOROUGH);
+    }
+    let per_size = ctx.n(20, 60);
+    let bulk_types = ["101", "104", "940", "942", "103", "202", "920", "935"];
+    let to_json_bulk = |c: &TokCase| serde_json::to_value(c).unwrap();
+    ctx.run_generated(
+        "bulk",
+        sizes.len(),
+        per_size,
+        60000,
+        &|sh, src: &mut Src| {
+            let mt = *src.pick(&bulk_types);
+            generate_bulk(mt, sizes[sh % sizes.len()], src)
+        },
+        &oracle,
+        &to_json_bulk,
     );
     if !ctx.quick() {
         // > 65 536 fields: position stamps must still be strictly increasing
